@@ -132,4 +132,89 @@ theorem showTables_ok (rest : List Tok) (f : Nat) :
   unfold pStatement
   kw_simp
 
+/-! ### SET k = v -/
+theorem length_cfgTail (ps : List (Bool × String)) : ps.length ≤ (cfgTail ps).length := by
+  induction ps with
+  | nil => simp [cfgTail]
+  | cons p r ih => obtain ⟨b, w⟩ := p; simp only [cfgTail, List.length_cons]; omega
+/-- the loop of `_parse_config_string` rebuilds the string from its pieces -/
+theorem cfgLoop_ok (fol : List Tok) (hd : searchStr fol "." = false) (hm : searchStr fol "-" = false) :
+    ∀ (ps : List (Bool × String)) (w : String) (g : Nat), ps.length + 1 ≤ g →
+      configStringLoop g w (cfgTail ps ++ fol) = .ok (cfgJoin w ps, fol) := by
+  intro ps
+  induction ps with
+  | nil =>
+    intro w g hg
+    obtain ⟨g, rfl⟩ : ∃ k, g = k + 1 := ⟨g - 1, by omega⟩
+    simp [cfgTail, cfgJoin, configStringLoop, hd, hm]
+  | cons p r ih =>
+    obtain ⟨b, x⟩ := p
+    intro w g hg
+    simp only [List.length_cons] at hg
+    obtain ⟨g, rfl⟩ : ∃ k, g = k + 1 := ⟨g - 1, by omega⟩
+    have := ih (w ++ (if b then "." else "-") ++ x) g (by omega)
+    cases b
+    · simp only [cfgTail, cfgJoin, Bool.false_eq_true, if_false] at this ⊢
+      rw [configStringLoop]
+      kw_simp
+      exact this
+    · simp only [cfgTail, cfgJoin, if_true] at this ⊢
+      rw [configStringLoop]
+      kw_simp
+      exact this
+theorem cfg_ok (s : String) (hs : cfgOK s = true) (fol : List Tok) (hd : searchStr fol "." = false) (hm : searchStr fol "-" = false) :
+    pConfigString (toksCfg s ++ fol) = .ok (s, fol) := by
+  simp only [cfgOK, beq_iff_eq] at hs
+  unfold pConfigString toksCfg
+  kw_simp
+  have := cfgLoop_ok fol hd hm (cfgSplit s).2 (cfgSplit s).1 ((cfgTail (cfgSplit s).2 ++ fol).length + 1) (by
+    have := length_cfgTail (cfgSplit s).2
+    simp only [List.length_append]; omega)
+  rw [this, hs]
+theorem set_ok (c : ConfigStr) (hn : cfgOK c.name = true) (hv : cfgOK c.value = true) (rest : List Tok) (hr : stopsAny d rest = true) (f : Nat) :
+    pStatement d f (toksSet c ++ rest) = .ok (.set c, rest) := by
+  obtain ⟨n, v⟩ := c
+  have h1 := cfg_ok n hn (TD.eqTok :: (toksCfg v ++ rest)) (by simp only [TD.eqTok]; kw_simp) (by simp only [TD.eqTok]; kw_simp)
+  have h2 := cfg_ok v hv rest (sa_str hr "." (by decide)) (sa_str hr "-" (by decide))
+  unfold pStatement toksSet
+  kw_simp
+  unfold pSet
+  kw_simp
+  unfold pConfigStrExpr
+  simp only [h1]
+  simp only [TD.eqTok]
+  kw_simp
+  simp only [h2]
+
+/-! ### ANALYZE TABLE -/
+theorem analyze_ok (t : TableName) (p : Option (List Expr)) (fc cm ns : Bool) (ht : TDM.tblOKD t = true)
+    (hp : if d == .HIVE then TDM.PartRec d noX p else p = none ∧ fc = false ∧ cm = false ∧ ns = false)
+    (rest : List Tok) (hr : stopsAny d rest = true) (f : Nat) (hf : 20 * sizeL (toksAnalyze d t p fc cm ns) + 2 ≤ f) :
+    pStatement d f (toksAnalyze d t p fc cm ns ++ rest) = .ok (.analyze t p fc cm ns, rest) := by
+  have u1 := sa_up hr "PARTITION" (by decide)
+  have u2 := sa_two hr "COMPUTE" "STATISTICS" (by decide)
+  have u3 := sa_two hr "FOR" "COLUMNS" (by decide)
+  have u4 := sa_two hr "CACHE" "METADATA" (by decide)
+  have u5 := sa_up hr "NOSCAN" (by decide)
+  have e : ∀ X, matchSeq (opTok "ANALYZE" :: opTok "TABLE" :: X) ["ANALYZE", "TABLE"] = .ok ((), X) := by intro X; kw_simp
+  unfold pStatement toksAnalyze
+  kw_simp
+  unfold pAnalyze
+  by_cases hd : (d == Gen.D.HIVE) = true
+  · simp only [hd, if_true] at hp ⊢
+    simp only [toksAnalyze, hd, if_true, sizeL_cons, sizeL_append] at hf
+    have h1 : pTblName (tbl t :: (TDM.toksPart d noX p ++ (opTok "COMPUTE" :: opTok "STATISTICS" :: (TD.flag fc [opTok "FOR", opTok "COLUMNS"] ++
+        (TD.flag cm [opTok "CACHE", opTok "METADATA"] ++ (TD.flag ns [opTok "NOSCAN"] ++ rest)))))) = .ok (t, _) :=
+      TDM.tblName_ok t ht _ (TDM.part_head p _ (by kw_simp))
+    have h2 := TDM.optPartition_ok p hp (opTok "COMPUTE" :: opTok "STATISTICS" :: (TD.flag fc [opTok "FOR", opTok "COLUMNS"] ++
+        (TD.flag cm [opTok "CACHE", opTok "METADATA"] ++ (TD.flag ns [opTok "NOSCAN"] ++ rest)))) (by kw_simp) f (by omega)
+    simp only at h2
+    simp only [List.append_assoc, List.cons_append, e, h1, h2]
+    cases fc <;> cases cm <;> cases ns <;> simp only [TD.flag, if_true, Bool.false_eq_true, if_false] <;> kw_simp <;>
+      simp only [u3, u4, u5, moveTwoUp, moveStrUp, Bool.false_eq_true, if_false]
+  · simp only [hd, Bool.false_eq_true, if_false] at hp ⊢
+    obtain ⟨rfl, rfl, rfl, rfl⟩ := hp
+    have h1 := tblName_rest t ht rest hr
+    simp only [List.cons_append, List.nil_append, e, h1, pOptPartition, u1, Bool.false_eq_true, if_false, moveTwoUp, u2, u3, u4, moveStrUp, u5]
+
 end TR
